@@ -105,6 +105,8 @@ def make_registry():
     permmodel.install_isclose(R)
     permmodel.install_set_of_array(R)
     permmodel.install_contiguous(R)
+    permmodel.install_where_median(R)
+    permmodel.install_bincount(R)
     from . import sparsemodel
     sparsemodel.install(R, models)
     sparsemodel.install_argmax(R)
